@@ -115,6 +115,14 @@ def _case(rng, name, T, L, U, r, npts, sym=None, scan=False, nfix=6):
     else:
         head = 'map.new %s %d %s %s %s' % (T, dim, ' '.join(tok(T, x) for x in L), ' '.join(tok(T, x) for x in U), tok(T, r))
     lines = [head]
+    if rng.chance(0.3):
+        # QUIET construction, then the centre table of SOME axes read before any centre is computed, then the description: an
+        # accessor with a side effect (seeded change c13f: tables filled lazily — `getCellCentersPositionAlong(axis)` fills only that
+        # axis, `computeCellCenterPosition` fills all only when the LAST axis' table is empty) is visible only in this order
+        lines = [head.replace('map.new ', 'map.newq ', 1).replace('map.sym ', 'map.symq ', 1)]
+        axes = [dim - 1] if rng.chance(0.5) else [i for i in range(dim) if rng.chance(0.5)]
+        lines += ['map.scan %d' % i for i in axes]
+        lines.append('map.describe')
     for p in _points(rng, T, L, U, r, npts):
         op = 'map.loc' if rng.chance(0.85) else 'map.idx'
         lines.append('%s %s' % (op, ' '.join(tok(T, x) for x in p)))
@@ -253,7 +261,7 @@ def _meta(case):
         return m
     tk = case['lines'][0].split()
     T, dim = tk[1], int(tk[2])
-    if tk[0] == 'map.sym':
+    if tk[0] in ('map.sym', 'map.symq'):
         mr, r = tok_val(tk[3]), tok_val(tk[4])
         m = {'T': T, 'dim': dim, 'L': [-mr] * dim, 'U': [mr] * dim, 'r': r, 'sym': mr}
     else:
@@ -344,7 +352,13 @@ def oracle(case, out, stats):
             bad('outcome-' + o.split()[-1], 'unexpected outcome')
             break
         f = o.split()
-        if op in ('map.new', 'map.sym'):
+        if op in ('map.newq', 'map.symq'):
+            if len(f) != 1 + dim or f[0] != 'n':
+                bad('malformed', 'bad output')
+                break
+            N = [int(x) for x in f[1:1 + dim]]
+            continue
+        if op in ('map.new', 'map.sym', 'map.describe'):
             if len(f) != 3 + 3 * dim or f[0] != 'n' or f[1 + dim] != 'first' or f[2 + 2 * dim] != 'last':
                 bad('malformed', 'bad output')
                 break
